@@ -1,9 +1,285 @@
-import SynthVerif.Model.Adsr
-import SynthVerif.Model.Lfo
-import SynthVerif.Model.Quantizer
-import SynthVerif.Model.Midi
-import SynthVerif.Model.Glide
-import SynthVerif.Model.Ribbon
+import SynthVerif.Props.AdsrLemmas
+import SynthVerif.Props.C11
+import SynthVerif.Props.C13
+import SynthVerif.Props.C15
+import SynthVerif.Props.C06
+import SynthVerif.Props.C07
+/-!
+# C17 — No operation panics, overflows or hangs for any in-range argument
+
+In the models every place where the Rust code can panic in a debug build (u32 `+`/`*`/`-` overflow, slice index,
+`unwrap`, debug assertions of dependencies) returns `none`; "no panic" is "the model step returns `some`".
+* ADSR: `adsr_ok` — `AOk` (geometry, sample rate in [100 Hz, 192 kHz], clamped times, counter inside 24 bits) is
+  an invariant of every operation and no `tick` panics; `phase_ends` — a timed phase ends after at most 2^22 ticks
+  (every tick adds at least 4 counts), so every gate-on reaches sustain and every release reaches rest.
+* LFO: `lfo_tick_ok` — for `0 ≤ f ≤ fs` no `tick` overflows; the counter stays inside 24 bits (`C10.reachable_ok`).
+* Glide: `C13.bounded_partial`, `C13.new_inv`, `C13.setTime_inv` — any `set_time` argument, finite inputs.
+* Quantizer: `C07.history_from_new` — any input value, any well-formed scale edit.
+* Ribbon: `ribbon_new_ok` + `C15.refines` — helper-sized buffers never underflow `capacity − discard`.
+* MIDI: `parse` is a total function and `C06.payload_bounds` shows every dependency assertion is met.
+-/
 namespace C17
-theorem placeholder_to_be_replaced : True := trivial
+open F32 AdsrL
+
+/-! ### ADSR -/
+
+structure AOk (a : Adsr) : Prop where
+  tb : a.pa.totalBits = 24
+  rate : RateOk a.pa.sr
+  acc : a.pa.acc < 2 ^ 24
+  rolled : a.pa.rolled = false
+  att : TimeOk a.attackTime
+  dec : TimeOk a.decayTime
+  rel : TimeOk a.releaseTime
+
+theorem minTime_ok : TimeOk minTime := by
+  have h := C20.minTime_eq
+  refine ⟨minTime.val, false, h, le_refl _, le_of_lt C20.minTime_lt_max, ?_⟩
+  have : minTime = ofBits Gen.minTimeBits := rfl
+  rw [this]; exact ofBits_rep _
+
+theorem timePeriod_minTime : timePeriod minTime = minTime := by decide +kernel
+
+theorem new_ok (sr : F32) (h : RateOk sr) : AOk (Adsr.new sr) := by
+  refine ⟨adsr_bits.1, h, by simp [Adsr.new, PhaseAcc.new], rfl, ?_, ?_, ?_⟩ <;>
+    (show TimeOk (timePeriod minTime); rw [timePeriod_minTime]; exact minTime_ok)
+
+theorem period_ok (a : Adsr) (h : AOk a) : TimeOk a.period := by
+  unfold Adsr.period
+  cases a.state <;> simp only <;> first | exact h.att | exact h.dec | exact h.rel | exact minTime_ok
+
+theorem inc_ok (a : Adsr) (h : AOk a) : 4 ≤ C02.incOf a ∧ C02.incOf a ≤ 2 ^ 28 :=
+  inc_bounds a.pa h.tb a.period (period_ok a h) h.rate
+
+/-- **no panic**: `tick` always returns, and keeps the invariant -/
+theorem tick_ok (a : Adsr) (h : AOk a) : ∃ a', a.tick = some a' ∧ AOk a' := by
+  by_cases ht : a.state.timed = true
+  · obtain ⟨i1, i2⟩ := inc_ok a h
+    have hacc := h.acc
+    obtain ⟨a', e, r', _, tb', hcase⟩ := C02.tick_timed a ht h.rolled (by omega)
+    refine ⟨a', e, ?_⟩
+    have hfields : a'.pa.sr = a.pa.sr ∧ a'.attackTime = a.attackTime ∧ a'.decayTime = a.decayTime ∧
+        a'.releaseTime = a.releaseTime := by
+      have ht' := C02.pa_tick (a.pa.setPeriod a.period) (by show a.pa.acc + C02.incOf a < 2 ^ 32; omega)
+      unfold Adsr.tick at e
+      rw [if_pos ht, ht'] at e
+      simp only [Option.some.injEq] at e
+      subst e
+      dsimp only
+      split <;> exact ⟨rfl, rfl, rfl, rfl⟩
+    obtain ⟨f1, f2, f3, f4⟩ := hfields
+    refine ⟨by rw [tb']; exact h.tb, by rw [f1]; exact h.rate, ?_, r', by rw [f2]; exact h.att,
+      by rw [f3]; exact h.dec, by rw [f4]; exact h.rel⟩
+    rw [h.tb] at hcase
+    split at hcase
+    · rw [hcase.2]; norm_num
+    · rw [hcase.2]; omega
+  · have ht' : a.state.timed = false := by simpa using ht
+    refine ⟨{ a with value := a.calcValue }, by simp [Adsr.tick, ht'], ?_⟩
+    exact ⟨h.tb, h.rate, h.acc, h.rolled, h.att, h.dec, h.rel⟩
+
+theorem gateOn_ok (a : Adsr) (h : AOk a) : AOk a.gateOn := by
+  unfold Adsr.gateOn
+  split
+  · exact h
+  · exact ⟨h.tb, h.rate, by simp [PhaseAcc.reset], by simp [PhaseAcc.reset], h.att, h.dec, h.rel⟩
+
+theorem gateOff_ok (a : Adsr) (h : AOk a) : AOk a.gateOff := by
+  unfold Adsr.gateOff
+  split
+  · exact h
+  · exact h
+  · exact ⟨h.tb, h.rate, by simp [PhaseAcc.reset], by simp [PhaseAcc.reset], h.att, h.dec, h.rel⟩
+
+/-- parameter changes as the public API allows them: the value goes through `TimePeriod::from` / `SustainLevel::from` -/
+inductive Op
+  | gateOn | gateOff | tick
+  | setAttack (x : F32) | setDecay (x : F32) | setRelease (x : F32) | setSustain (x : F32)
+
+def step (a : Adsr) : Op → Option Adsr
+  | .gateOn => some a.gateOn
+  | .gateOff => some a.gateOff
+  | .tick => a.tick
+  | .setAttack x => some (a.setInput (.attack (timePeriod x)))
+  | .setDecay x => some (a.setInput (.decay (timePeriod x)))
+  | .setRelease x => some (a.setInput (.release (timePeriod x)))
+  | .setSustain x => some (a.setInput (.sustain (sustainLevel x)))
+
+def run (a : Adsr) : List Op → Option Adsr
+  | [] => some a
+  | o :: os => match step a o with
+    | none => none
+    | some a' => run a' os
+
+def opWf : Op → Prop
+  | .setAttack x | .setDecay x | .setRelease x | .setSustain x => Rep x.val
+  | _ => True
+
+theorem step_ok (a : Adsr) (h : AOk a) (o : Op) (hw : opWf o) : ∃ a', step a o = some a' ∧ AOk a' := by
+  cases o with
+  | gateOn => exact ⟨_, rfl, gateOn_ok a h⟩
+  | gateOff => exact ⟨_, rfl, gateOff_ok a h⟩
+  | tick => exact tick_ok a h
+  | setAttack x => exact ⟨_, rfl, ⟨h.tb, h.rate, h.acc, h.rolled, timePeriod_ok x hw, h.dec, h.rel⟩⟩
+  | setDecay x => exact ⟨_, rfl, ⟨h.tb, h.rate, h.acc, h.rolled, h.att, timePeriod_ok x hw, h.rel⟩⟩
+  | setRelease x => exact ⟨_, rfl, ⟨h.tb, h.rate, h.acc, h.rolled, h.att, h.dec, timePeriod_ok x hw⟩⟩
+  | setSustain x => exact ⟨_, rfl, ⟨h.tb, h.rate, h.acc, h.rolled, h.att, h.dec, h.rel⟩⟩
+
+/-- **ADSR, all histories**: for a sample rate in [100 Hz, 192 kHz] and *any* binary32 parameter values, no
+sequence of gate-on / gate-off / tick / set_input calls panics or overflows -/
+theorem adsr_ok (sr : F32) (hsr : RateOk sr) (ops : List Op) (hw : ∀ o ∈ ops, opWf o) :
+    ∃ a', run (Adsr.new sr) ops = some a' ∧ AOk a' := by
+  suffices h : ∀ a, AOk a → ∃ a', run a ops = some a' ∧ AOk a' from h _ (new_ok sr hsr)
+  induction ops with
+  | nil => intro a h; exact ⟨a, rfl, h⟩
+  | cons o os ih =>
+    intro a h
+    obtain ⟨a1, e1, h1⟩ := step_ok a h o (hw o (by simp))
+    obtain ⟨a2, e2, h2⟩ := ih (fun x hx => hw x (by simp [hx])) a1 h1
+    have : run a (o :: os) = (match step a o with | none => none | some a' => run a' os) := rfl
+    exact ⟨a2, by rw [this, e1]; exact e2, h2⟩
+
+/-- one tick of a timed phase either ends it or moves the counter forward by at least 4 -/
+theorem tick_progress (a : Adsr) (h : AOk a) (ht : a.state.timed = true) :
+    ∃ a', a.tick = some a' ∧ AOk a' ∧
+      (a'.state = a.state.next ∨ (a'.state = a.state ∧ a.pa.acc + 4 ≤ a'.pa.acc)) := by
+  obtain ⟨i1, i2⟩ := inc_ok a h
+  have hacc := h.acc
+  obtain ⟨a', e, _, _, _, hcase⟩ := C02.tick_timed a ht h.rolled (by omega)
+  obtain ⟨a'', e', ok⟩ := tick_ok a h
+  rw [e] at e'; simp only [Option.some.injEq] at e'; subst e'
+  refine ⟨a', e, ok, ?_⟩
+  split at hcase
+  · left; exact hcase.1
+  · right; exact ⟨hcase.1, by rw [hcase.2]; omega⟩
+
+/-- iterate `tick` -/
+def tickN (a : Adsr) : ℕ → Option Adsr
+  | 0 => some a
+  | n + 1 => match a.tick with
+    | none => none
+    | some a' => tickN a' n
+
+/-- **liveness**: a timed phase ends after at most `k` ticks whenever `2^24 − acc ≤ 4k`; in particular within
+2^22 ticks from any position -/
+theorem phase_ends (k : ℕ) (a : Adsr) (h : AOk a) (ht : a.state.timed = true) (hk : 2 ^ 24 - a.pa.acc ≤ 4 * k) :
+    ∃ n a', n ≤ k ∧ 1 ≤ n ∧ tickN a n = some a' ∧ AOk a' ∧ a'.state = a.state.next := by
+  induction k generalizing a with
+  | zero => have := h.acc; omega
+  | succ k ih =>
+    obtain ⟨a1, e1, ok1, hcase⟩ := tick_progress a h ht
+    rcases hcase with hnext | ⟨hsame, hadv⟩
+    · exact ⟨1, a1, by omega, le_refl _, by simp [tickN, e1], ok1, hnext⟩
+    · have hacc1 := ok1.acc
+      obtain ⟨n, a2, hn, hn1, e2, ok2, hs2⟩ := ih a1 ok1 (by rw [hsame]; exact ht) (by omega)
+      refine ⟨n + 1, a2, by omega, by omega, ?_, ok2, by rw [hs2, hsame]⟩
+      simp [tickN, e1, e2]
+
+/-- every envelope started by a gate-on reaches sustain within 2^23 ticks; every release reaches rest within 2^22 -/
+theorem reaches_sustain (a : Adsr) (h : AOk a) (hs : a.state = .attack) :
+    ∃ n a', n ≤ 2 ^ 23 ∧ tickN a n = some a' ∧ a'.state = .sustain := by
+  obtain ⟨n1, a1, hn1, _, e1, ok1, s1⟩ := phase_ends (2 ^ 22) a h (by rw [hs]; rfl) (by have := h.acc; omega)
+  rw [hs] at s1
+  obtain ⟨n2, a2, hn2, _, e2, ok2, s2⟩ := phase_ends (2 ^ 22) a1 ok1 (by rw [s1]; rfl) (by have := ok1.acc; omega)
+  rw [s1] at s2
+  refine ⟨n1 + n2, a2, by omega, ?_, s2⟩
+  -- tickN composes
+  have comp : ∀ (m : ℕ) (x y : Adsr), tickN x m = some y → ∀ k z, tickN y k = some z → tickN x (m + k) = some z := by
+    intro m
+    induction m with
+    | zero => intro x y hxy k z hyz; simp only [tickN, Option.some.injEq] at hxy; subst hxy; simpa using hyz
+    | succ m ihm =>
+      intro x y hxy k z hyz
+      have : m + 1 + k = (m + k) + 1 := by omega
+      rw [this]
+      simp only [tickN] at hxy ⊢
+      cases hx : x.tick with
+      | none => rw [hx] at hxy; simp at hxy
+      | some x' => rw [hx] at hxy; exact ihm x' y hxy k z hyz
+  exact comp n1 a a1 e1 n2 a2 e2
+
+theorem reaches_rest (a : Adsr) (h : AOk a) (hs : a.state = .release) :
+    ∃ n a', n ≤ 2 ^ 22 ∧ tickN a n = some a' ∧ a'.state = .atRest := by
+  obtain ⟨n1, a1, hn1, _, e1, _, s1⟩ := phase_ends (2 ^ 22) a h (by rw [hs]; rfl) (by have := h.acc; omega)
+  rw [hs] at s1
+  exact ⟨n1, a1, hn1, e1, s1⟩
+
+/-! ### LFO -/
+
+/-- a tick cannot overflow while the increment stays below 2^31 (it is at most 2^24·(1+2^-24)+1 for `f ≤ fs`) -/
+theorem lfo_tick_ok (l : Lfo) (h : C10.Ok l) (hinc : l.pa.inc < 2 ^ 31) : ∃ l', l.tick = some l' ∧ C10.Ok l' := by
+  have hacc := h.acc
+  have hov : ¬ (l.pa.acc + l.pa.inc ≥ 2 ^ 32) := by omega
+  cases ht : l.tick with
+  | none => simp only [Lfo.tick, PhaseAcc.tick, if_neg hov, Option.map_some] at ht; simp at ht
+  | some l1 =>
+    refine ⟨l1, rfl, ?_⟩
+    simp only [Lfo.tick, PhaseAcc.tick, if_neg hov, Option.map_some, Option.some.injEq] at ht
+    subst ht
+    refine ⟨h.tb, h.ib, ?_⟩
+    show (l.pa.acc + l.pa.inc) % 2 ^ l.pa.totalBits < 2 ^ 24
+    rw [h.tb]; exact Nat.mod_lt _ (by norm_num)
+
+/-- for every representable frequency in `[0, fs]` the increment is below 2^31, so ticking never panics -/
+theorem lfo_freq_ok (l : Lfo) (h : C10.Ok l) (φ σ : ℚ) (nf ns : Bool) (hsr : l.pa.sr = .fin σ ns)
+    (hφ0 : 0 ≤ φ) (hφσ : φ ≤ σ) (hσ : 0 < σ) (hσ' : σ ≤ 2 ^ (100:ℤ)) (hrep : Rep φ) :
+    (l.setFrequency (.fin φ nf)).pa.inc < 2 ^ 31 := by
+  obtain ⟨hi, _⟩ := C11.increment_bounds l h φ σ nf ns hsr hφ0 hφσ hσ hσ' hrep
+  have hx : (2:ℚ) ^ 24 * φ / σ ≤ 2 ^ 24 := by
+    rw [div_le_iff₀ hσ]; nlinarith
+  have : (((l.setFrequency (.fin φ nf)).pa.inc : ℕ) : ℚ) < 2 ^ 31 := by
+    have e1 : (2:ℚ) ^ (-24:ℤ) ≤ 1 := by norm_num
+    have e2 : (2:ℚ) ^ (-150:ℤ) ≤ 1 := by norm_num
+    have x0 : (0:ℚ) ≤ 2 ^ 24 * φ / σ := by positivity
+    calc (((l.setFrequency (.fin φ nf)).pa.inc : ℕ) : ℚ) ≤ 2 ^ 24 * φ / σ * (1 + 2 ^ (-24:ℤ)) + 2 ^ (-150:ℤ) := hi
+      _ ≤ 2 ^ 24 * 2 + 1 := by nlinarith
+      _ < 2 ^ 31 := by norm_num
+  exact_mod_cast this
+
+/-! ### Ribbon -/
+
+theorem toU32_ofNat (n : ℕ) (h : n < 2 ^ 24) : toU32 (ofNat n) = n := by
+  obtain ⟨f1, f2⟩ := ofNat_fin n h
+  cases hn : ofNat n with
+  | nan => rw [hn] at f1; simp at f1
+  | inf s => rw [hn] at f1; simp at f1
+  | fin r rz =>
+    rw [hn, val_fin] at f2
+    have := toU32_floor r rz (by rw [f2]; positivity) (by rw [f2]; exact_mod_cast lt_trans h (by norm_num))
+    rw [f2] at this
+    have e : ⌊(n:ℚ)⌋ = n := by simp
+    rw [e] at this
+    rw [f2]
+    exact_mod_cast this
+
+/-- **helper-sized buffers**: for an integer sample rate up to 192 kHz, constructing the controller with the capacity
+given by `sample_rate_to_capacity` never panics and leaves `discard < capacity` — the hypothesis under which
+`C15.refines` shows that no `poll` panics -/
+theorem ribbon_new_ok (n : ℕ) (hn : n ≤ 192000) (sp dr pu : F32) :
+    ∃ c r, Ribbon.sampleRateToCapacity n = some c ∧ Ribbon.new c (ofNat n) sp dr pu = some r ∧
+      1 ≤ c ∧ r.discard < c ∧ r.buff.capacity = c := by
+  have hu := toU32_ofNat n (by omega)
+  have c1 : Gen.ribbonFallUsec = 1000 ∧ Gen.ribbonRiseUsec = 2000 ∧ Gen.ribbonMinCaptureUsec = 15000 := by decide
+  obtain ⟨k1, k2, k3⟩ := c1
+  have hcap : Ribbon.sampleRateToCapacity n = some (n * 15000 / 1000000 + n * 2000 / 1000000 + 1) := by
+    unfold Ribbon.sampleRateToCapacity
+    rw [k2, k3]
+    have : ¬ (n * 15000 ≥ 2 ^ 32 ∨ n * 2000 ≥ 2 ^ 32) := by omega
+    rw [if_neg this]
+  have hs1 : Ribbon.usecToSamples (ofNat n) Gen.ribbonFallUsec = some (n * 1000 / 1000000) := by
+    unfold Ribbon.usecToSamples; rw [hu, k1]
+    have : ¬ (n * 1000 ≥ 2 ^ 32) := by omega
+    simp only [if_neg this]
+  have hs2 : Ribbon.usecToSamples (ofNat n) Gen.ribbonRiseUsec = some (n * 2000 / 1000000) := by
+    unfold Ribbon.usecToSamples; rw [hu, k2]
+    have : ¬ (n * 2000 ≥ 2 ^ 32) := by omega
+    simp only [if_neg this]
+  refine ⟨_, _, hcap, by unfold Ribbon.new; rw [hs1, hs2], by omega, ?_, rfl⟩
+  show n * 2000 / 1000000 < n * 15000 / 1000000 + n * 2000 / 1000000 + 1
+  omega
+
+/-- non-vacuity: the two sample rates at which the envelope used to hang before the roll-over repair -/
+example : (run (Adsr.new (ofBits 0x42c80000)) [.setAttack (ofBits 0x3c23d70a), .gateOn, .tick, .tick, .tick]).map (·.state)
+    = some .sustain := by decide +kernel
+
 end C17
